@@ -8,6 +8,8 @@ import (
 	"errors"
 	"io"
 	"net/http"
+	"net/http/httptrace"
+	"sync/atomic"
 	"time"
 
 	"google.golang.org/grpc"
@@ -38,6 +40,10 @@ type client struct {
 	tr   *http.Transport
 	conn *grpc.ClientConn
 	base string
+
+	// HTTP requests that went out on a connection that had carried an earlier
+	// request / on a new one (evidence for the one-connection sequences).
+	reusedConn, newConn atomic.Int64
 }
 
 func newClient(cfg serverCfg, mat *material, httpAddr, grpcAddr string, cs credState) (*client, error) {
@@ -140,6 +146,15 @@ func (c *client) do(method, path string, body []byte) httpRes {
 	if c.cred.Header != "" {
 		req.Header.Set("Authorization", c.cred.Header)
 	}
+	req = req.WithContext(httptrace.WithClientTrace(req.Context(), &httptrace.ClientTrace{
+		GotConn: func(i httptrace.GotConnInfo) {
+			if i.Reused {
+				c.reusedConn.Add(1)
+			} else {
+				c.newConn.Add(1)
+			}
+		},
+	}))
 	resp, err := c.hc.Do(req)
 	if err != nil {
 		return httpRes{Err: err}
